@@ -413,4 +413,123 @@ theorem stageBlockHashes_accept_full {E : Env H} {cfg : Cfg} (hstrict : StrictPr
         | indexError => simp at hacc
         | internal => simp at hacc
 
+/-- `_satisfy_ciphertext_hash_tree` keeps the node's crypttext hash tree closed, whatever the share answered -/
+theorem stageCtHashes_keeps_closed {E : Env H} {cfg : Cfg} (hstrict : StrictPresence E.ops cfg)
+    (pick : List Nat → Nat) (segnum : Nat) (v : View H) (nd : Node H)
+    (hodd : nd.ctTree.length % 2 = 1) (hcl : Closed nd.ctTree) :
+    Closed (stageCtHashes E cfg pick segnum v nd).2.ctTree := by
+  unfold stageCtHashes
+  cases hk : nd.known with
+  | none => simp only; exact hcl
+  | some us =>
+    obtain ⟨u, sz⟩ := us
+    simp only
+    cases hn : neededHashes? nd.ctTree (firstLeafNum sz.numSegs) segnum true with
+    | none => simp only; exact hcl
+    | some needed =>
+      cases needed with
+      | nil => simp only; exact hcl
+      | cons a rest =>
+        simp only
+        cases hc : collect (a :: rest) v.ctHashes with
+        | none => simp only; exact hcl
+        | some hs =>
+          simp only
+          have hrange : ∀ new, mergeLeaves (firstLeafNum sz.numSegs) hs [] = some new →
+              ∀ e ∈ new, e.1 < nd.ctTree.length := by
+            intro new hm e he
+            have : new = hs := by simp [mergeLeaves] at hm; exact hm.symm
+            subst this
+            exact neededHashes?_lt hodd hn _ (collect_keys hc e he)
+          cases hsr : setHashes E.ops cfg pick (firstLeafNum sz.numSegs) nd.ctTree hs [] with
+          | mk o t' =>
+            have := set_keeps_closed hstrict hcl hrange hsr
+            cases o <;> (simp only; exact this)
+
+/-- `_satisfy_share_hash_tree` keeps the node's share hash tree closed, whatever chain the share sent -/
+theorem stageShareTree_keeps_closed {E : Env H} {cfg : Cfg} (hstrict : StrictPresence E.ops cfg)
+    (pick : List Nat → Nat) (cap : Cap H) (shnum : Nat) (v : View H) (nd : Node H) (hcl : Closed nd.shareTree) :
+    Closed (stageShareTree E cfg pick cap shnum v nd).2.shareTree := by
+  unfold stageShareTree
+  split
+  · exact hcl
+  · split
+    · exact hcl
+    · split
+      · exact hcl
+      · simp only
+        split
+        · exact hcl
+        · rename_i hany
+          have hrange : ∀ new, mergeLeaves (firstLeafNum cap.n) (dictOf v.shareHashes) [] = some new →
+              ∀ e ∈ new, e.1 < nd.shareTree.length := by
+            intro new hm e he
+            have : new = dictOf v.shareHashes := by simp [mergeLeaves] at hm; exact hm.symm
+            subst this
+            apply Nat.lt_of_not_le
+            intro hge
+            exact hany (List.any_eq_true.mpr ⟨e, he, by simpa using hge⟩)
+          cases hsr : setHashes E.ops cfg pick (firstLeafNum cap.n) nd.shareTree (dictOf v.shareHashes) [] with
+          | mk o t' =>
+            have := set_keeps_closed hstrict hcl hrange hsr
+            cases o <;> (simp only; exact this)
+
+omit [DecidableEq H] in
+/-- storing a root (`set_hashes({0: root})` on an empty root slot) keeps a tree closed -/
+theorem seed_keeps_closed {t : Tree H} (hcl : Closed t) (r : H) : Closed (seed t r) := by
+  intro i hi h1 h2
+  unfold seed at *
+  rw [get_set_ne _ (Ne.symm hi)] at h1
+  rw [get_set_ne _ (Ne.symm (sibling_ne_zero hi))] at h2
+  by_cases hp : parent i = 0
+  · rw [hp, get_set_eq _ (by have := lt_of_get_ne_none h1; omega)]
+    simp
+  · rw [get_set_ne _ (Ne.symm hp)]
+    exact hcl i hi h1 h2
+
+/-- `_satisfy_UEB` keeps the share hash tree closed and installs a closed crypttext hash tree -/
+theorem stageUEB_keeps_closed (E : Env H) (cap : Cap H) (v : View H) (nd : Node H)
+    (hs : Closed nd.shareTree) (hc : Closed nd.ctTree) :
+    Closed (stageUEB E cap v nd).2.shareTree ∧ Closed (stageUEB E cap v nd).2.ctTree := by
+  unfold stageUEB
+  split
+  · exact ⟨hs, hc⟩
+  · split
+    · exact ⟨hs, hc⟩
+    · split
+      · exact ⟨hs, hc⟩
+      · split
+        · exact ⟨hs, hc⟩
+        · split
+          · exact ⟨hs, hc⟩
+          · exact ⟨seed_keeps_closed hs _, seed_closed _ _⟩
+
+/-- `set_block_hash_root` keeps the share's block hash tree closed -/
+theorem stageBlockRoot_keeps_closed {E : Env H} {cfg : Cfg} (hstrict : StrictPresence E.ops cfg)
+    (pick : List Nat → Nat) (cap : Cap H) (shnum : Nat) (nd : Node H) {u : UEB H} {sz : Sizes}
+    (hk : nd.known = some (u, sz)) (hcl : Closed (nd.blockTree shnum sz.numSegs)) :
+    Closed ((stageBlockRoot E cfg pick cap shnum nd).2.blockTree shnum sz.numSegs) := by
+  unfold stageBlockRoot
+  rw [hk]
+  simp only
+  split
+  · exact hcl
+  · split
+    · exact hcl
+    · split
+      · rw [blockTree_set_same]; exact seed_keeps_closed hcl _
+      · rename_i r _ hroot
+        have hrange : ∀ new, mergeLeaves (firstLeafNum sz.numSegs) [(0, r)] [] = some new →
+            ∀ e ∈ new, e.1 < (nd.blockTree shnum sz.numSegs).length := by
+          intro new hm e he
+          simp [mergeLeaves] at hm
+          subst hm
+          simp at he
+          subst he
+          exact lt_of_get_ne_none hroot
+        cases hsr : setHashes E.ops cfg pick (firstLeafNum sz.numSegs) (nd.blockTree shnum sz.numSegs) [(0, r)] [] with
+        | mk o t' =>
+          have := set_keeps_closed hstrict hcl hrange hsr
+          cases o <;> (simp only; rw [blockTree_set_same]; exact this)
+
 end Tahoe.Integrity
